@@ -13,6 +13,7 @@ import Ioc.Generated.Facts
 import IocProofs.Lemmas.SemOrder
 import IocProofs.Lemmas.SemConfigure
 import IocProofs.Lemmas.SemInit
+import IocProofs.Lemmas.SemDelegate
 namespace Ioc.C12
 open Ioc Ioc.Order
 
@@ -428,5 +429,36 @@ theorem C12_code_applyAfter (procs : List Nat) (before after : Nat → Nat → R
       some (Sem.encAfter (Sem.afterLoop after procs c).2, w ++ Sem.aevs (Sem.afterLoop after procs c).1) ∧
     applyAfter after procs c [] = ((Sem.afterLoop after procs c).1, (Sem.afterLoop after procs c).2) :=
   ⟨Sem.applyAfter_sem procs before after im c w, by rw [Sem.applyAfter_eq]; simp⟩
+
+/-- ResolveAfterInstantiation, regenerated (delegate:213-231): the InstantiationAware processors are called in the order of
+    `componentPostProcessors`; PostProcessProperties only follows a `true` answer, the first error of either call ends the
+    loop — `Order.resolveAfterInstantiation`.  The boolean a failing PostProcessAfterInstantiation returns next to its error
+    (`errOk`) does not matter. -/
+theorem C12_code_ResolveAfterInstantiation (procs : List Nat) (isInst : Nat → Bool) (res : Nat → Step) (errOk : Nat → Bool) :
+    Go.run (Sem.raiPrims procs isInst res errOk) Progs.del_ResolveAfterInstantiation [.str "meta", .str "n"] [] =
+      some (if (resolveAfterInstantiation isInst res procs).2 then Sem.errN else .nil,
+            (resolveAfterInstantiation isInst res procs).1) :=
+  Sem.resolveAfterInstantiation_sem procs isInst res errOk []
+
+/-- InvokeBeanFactoryPostProcessors, regenerated (delegate:36-66): with `sorted` = what SortOrderedComponents returns for the
+    raw list (`C12_code_sortOrderedComponents`: `sortOrdered sort part raw`), the registration is `Order.invokeRegister`:
+    the processors are created through the factory and appended to `componentPostProcessors` in SORTED order, the first
+    failing creation ends it -/
+theorem C12_code_InvokeBeanFactoryPostProcessors (sort : (Nat → Nat → Bool) → List Nat → List Nat) (part : Nat → Part)
+    (fpFails : Nat → Bool) (drFails : Bool) (lazy : Nat → Bool) (getc : Nat → Option Nat) (isCPP : Nat → Bool)
+    (fprocs raw cpp0 : List Nat) :
+    Go.run (Sem.regPrims' fpFails drFails (sortOrdered sort part raw) lazy getc isCPP) Progs.del_InvokeBeanFactoryPostProcessors
+        [.str "factory", .list (fprocs.map Sem.encP)] { raw := .list (raw.map Sem.encP), cpp := cpp0.map Sem.encP } =
+      some (Sem.invokeModel fpFails drFails (sortOrdered sort part raw) lazy getc isCPP fprocs raw cpp0) ∧
+    (¬ (runLoop fpFails fprocs []).2 → drFails = false →
+      (Sem.invokeModel fpFails drFails (sortOrdered sort part raw) lazy getc isCPP fprocs raw cpp0).2.cpp =
+        (invokeRegister sort part (Sem.resolveOf lazy getc isCPP) raw cpp0).1.map Sem.encP) := by
+  refine ⟨Sem.invokeBeanFactoryPostProcessors_sem fpFails drFails _ lazy getc isCPP fprocs raw cpp0, ?_⟩
+  intro h1 h2
+  simp [Sem.invokeModel, h1, h2, invokeRegister]
+
+/-- non-vacuity: processors 1 (lazy) and 2 (created, the created instance 7 is registered) in sorted order [2, 1] -/
+example : (Sem.invokeModel (fun _ => false) false [2, 1] (fun p => p == 1) (fun p => if p == 2 then some 7 else none)
+    (fun _ => true) [9] [1, 2] []).2.cpp = [Sem.encP 7, Sem.encP 1] := by rfl
 
 end Ioc.C12
